@@ -331,7 +331,8 @@ def corpus():
 
 class ProgGen:
     def __init__(self, rng, multi_phase=True, max_ops=8, arrays=True, calls=True, loops=True,
-                 float_literals=False):
+                 float_literals=False, targets=None, call_targets=None, inputs=None, control=True,
+                 scalar_loops=False):
         self.rng = rng
         self.multi_phase = multi_phase
         self.max_ops = max_ops
@@ -339,6 +340,11 @@ class ProgGen:
         self.calls = calls
         self.loops = loops
         self.float_literals = float_literals
+        self.targets = targets or ["a", "b", "c", "<state>y", "<state>z", "<p>k", "<dt>"]
+        self.call_targets = call_targets or ["a", "c", "<state>z"]
+        self.inputs = inputs or {"<state>y": "num", "<state>z": "num", "<t>": "num", "<dt>": "num", "<state>n": "num"}
+        self.control = control
+        self.scalar_loops = scalar_loops
 
     def expr_gen(self, defined):
         nums = sorted(n for n in defined if defined[n] == "num")
@@ -383,8 +389,13 @@ class ProgGen:
                         # the builder (documented) refuses a subscripted assignee for a top-level call
                         e = ADD(e, C(0))
                     ops.append(["assign", ["sub", "<state>v", self.index_expr(defined)], e, []])
+                elif kind < 0.45 and self.scalar_loops and "acc" in defined:
+                    defined2 = dict(defined)
+                    defined2["i"] = "num"
+                    g2 = self.expr_gen(defined2)
+                    ops.append(["assign", "acc", ADD(V("acc"), g2.num(min(ed, 1))), [["i", C(0), rng.choice([C(2), C(3), C(0)])]]])
                 else:
-                    tgt = rng.choice(["a", "b", "c", "<state>y", "<state>z", "<p>k", "<dt>"])
+                    tgt = rng.choice(self.targets)
                     ops.append(["assign", tgt, g.num(ed), []])
                     defined[tgt] = "num"
             elif r < 0.55 and self.calls:
@@ -392,7 +403,7 @@ class ProgGen:
                     ops.append(["assign_call", ["a", "b"], "<func>h2", [g.num(0)], {}])
                     defined["a"] = defined["b"] = "num"
                 else:
-                    tgt = rng.choice(["a", "c", "<state>z"])
+                    tgt = rng.choice(self.call_targets)
                     kws = {"k": g.num(0)} if rng.random() < 0.4 else {}
                     ops.append(["assign_call", [tgt], rng.choice(["<func>f", "<func>g"]), [g.num(ed)], kws])
                     defined[tgt] = "num"
@@ -422,6 +433,8 @@ class ProgGen:
             elif r < 0.87:
                 comp = rng.choice(["y", "z"])
                 ops.append(["yield", g.num(ed), comp, rng.choice([T, ADD(T, DT)]), rng.choice(["final", "mid"])])
+            elif not self.control:
+                continue
             elif r < 0.92 and depth > 0:
                 ops.append(["fail"])
                 break
@@ -441,7 +454,7 @@ class ProgGen:
         names = ["p%d" % i for i in range(nph)]
         phases = []
         for n in names:
-            defined = {"<state>y": "num", "<state>z": "num", "<t>": "num", "<dt>": "num", "<state>n": "num"}
+            defined = dict(self.inputs)
             if self.arrays:
                 defined["<state>v"] = "arr"
             budget = [rng.randint(2, self.max_ops)]
